@@ -195,6 +195,9 @@ func (c19) Generate(idx int, r *core.Rand, tier string) core.Script {
 	for R < 8 && w.Chance(2, 5) {
 		R++
 	}
+	if w.Chance(1, 150) { // a source that is stuck for a long time
+		R = w.Range(100, 300)
+	}
 	cands, _ := c19Rejected(&s.Call, R, w, w.Chance(1, 2))
 	if w.Chance(1, 30) { // a degenerate candidate the key/nonce rules treat specially
 		cands = append([]string{hx(make([]byte, 32))}, cands...)
